@@ -33,7 +33,16 @@ pub fn run(_sh: &mut Shell, cl: &CommandLine, cmd: &Command, capture: bool) -> C
         return cr;
     }
 
-    let app = App::parse_from(args);
+    // a usage error is reported; it must not end the shell (as `parse_from` does)
+    let app = match App::try_parse_from(args) {
+        Ok(x) => x,
+        Err(e) => {
+            let info = format!("cicada: ulimit: {}", e.to_string().trim_end());
+            print_stderr_with_capture(&info, &mut cr, cl, cmd, capture);
+            cr.status = 2;
+            return cr;
+        }
+    };
 
     if app.H && app.S {
         println!("cicada: ulimit: Cannot both hard and soft.");
